@@ -6,6 +6,7 @@ from functools import lru_cache
 
 from ..explore import bfs as BFS
 from ..model import refgraph as RG
+from ..model import refstereo as RS
 from ..snapshot import diff, norm, snap
 from ..universe import graphs as U
 from . import eqcommon as E
@@ -24,6 +25,39 @@ ASSUMPTIONS = ["compose receives lists/tuples (the statement says 'any iterable'
                "descriptor / stereo-change kept iff all of its atoms (placeholders excluded) lie in S"]
 BUDGET = {"quick": 600, "thorough": 1200}
 MG, SMG, CRG, SCRG = RG.MG, RG.SMG, RG.CRG, RG.SCRG
+
+
+def _other(d):
+    """another spatially distinct descriptor of the same class over the same atoms (None if there is none to be had)"""
+    c, t, p = d
+    t = tuple(t)
+    if p in (1, -1):
+        return (c, t, -p)
+    if p == 0 and len(t) >= 3:
+        i, j = (0, 1) if c in RS.BOND_CLASSES else (1, 2)
+        o = (c, t[:i] + (t[j],) + t[i + 1:j] + (t[i],) + t[j + 1:], p)
+        return None if RS.equal(o, d) else o
+    return None
+
+
+def _other_isomers(m):
+    """copy of the model graph with every descriptor and stereo change replaced by another isomer; None if nothing changes"""
+    x = m.copy()
+    changed = False
+    for tab in (x.astereo, x.bstereo):
+        for k, d in list(tab.items()):
+            o = _other(d)
+            if o is not None:
+                tab[k] = o
+                changed = True
+    for tab in (x.achg, x.bchg):
+        for k, kd in tab.items():
+            for ck, d in list(kd.items()):
+                o = _other(d)
+                if o is not None:
+                    kd[ck] = o
+                    changed = True
+    return x if changed else None
 
 
 @lru_cache(None)
@@ -348,6 +382,29 @@ def run_item(item):
                             V("compose-cover/class", f"compose returned a {type(h).__name__}", inp=str(assign))
                 except Exception as e:
                     V("compose-cover/raised:" + type(e).__name__, f"compose over the cover {S1},{S2} raised {e!r}", inp=str(assign))
+                # the same cover with every descriptor / stereo change of the second piece replaced by another isomer over the same
+                # atoms (built from the model, not derived from g): where the pieces overlap, the later piece's descriptors win,
+                # in either order of the two pieces
+                if m.kind in RG.STEREO:
+                    m2x = _other_isomers(m2)
+                    if m2x is not None:
+                        for first, second, tag in ((m1, m2x, "12"), (m2x, m1, "21")):
+                            expx = RG.RefGraph.compose(m.kind, [first, second]).observe()
+                            try:
+                                h = type(g).compose([U.build(first), U.build(second)])
+                            except Exception as e:
+                                V("compose-cover-isomer/raised:" + type(e).__name__, f"compose over the cover {S1},{S2} (second piece "
+                                  f"with other isomers, order {tag}) raised {e!r}", inp=str(assign) + tag)
+                                continue
+                            out["evals"] += 1
+                            out["distinct"] += 1
+                            oc["compose-cover-isomer"] = oc.get("compose-cover-isomer", 0) + 1
+                            got = norm(snap(h), drop_empty_changes=True)
+                            d = diff(got, expx)
+                            if d:
+                                V("compose-cover-isomer/wrong:" + "+".join(d), f"compose of sub{S1} and sub{S2} carrying different isomers "
+                                  f"on shared centres (order {tag}) differs from the labelled union with the later piece winning in {d}",
+                                  {x: {"real": got.get(x), "model": expx.get(x)} for x in d}, inp=str(assign) + tag)
         # ---- compose across classes: pieces converted to every other class that can hold their content ---------------
         for S1, S2 in ([(ids[: n // 2 + 1], ids[n // 2:]), (ids, ids[:1]), (ids[-1:], ids)] if n >= 2 else []):
             for pk in (MG, SMG, CRG, SCRG):          # class of the pieces
